@@ -5,6 +5,11 @@ V = os.path.dirname(os.path.dirname(os.path.abspath(__file__)))
 
 # id -> dict(level, engine, technique, text, note, design)
 CLAIMED = {
+ "C05": dict(level="exploration", engine="vsh-virtual + vsh-real",
+   technique="reference-model monitor: component-wise glob over a model tree (using the POSIX pattern model) vs the argument vector `probe PATTERN` receives; same trees on the real file system for a sample",
+   text="All pattern words of up to 3 (quick) / 4 characters over {a b . * ? [ ] - /} unquoted and {* ? [ a . backslash} quoted, on 12 / 40 random trees (names a b ab .a .b - [ * a] ba c.d in the root and in sub/ .hid/ d2/ e/ e-/ e.f/ and their dd/ subdirectories, a file symlink, a mode-000 directory), every 6th tree with set -f; random 1-4 component patterns (absolute, ., .., trailing slash) on 400 / 6000 trees of which a quarter (with symlinks to directories) run on the real file system with the same harness shell.",
+   note="Trusted: models/glob.rs + models/fnm.rs. Skipped as unspecified: slash inside brackets, doubled slashes, dot components next to an unsearchable directory. The virtual file system does not follow symlinks in the middle of a path, so directory symlinks are exercised on the real system only; permission cases on the virtual system only (uid 0).",
+   design="5/C05"),
  "C09": dict(level="fault_enumeration", engine="vsh-virtual",
    technique="fd-table reference model vs kernel-level observation of the shell's descriptor table (open-file-description identity, access mode, inode, close-on-exec) before/during/after each command, re-run under every soft RLIMIT_NOFILE from 5 to 20 so that every descriptor allocation fails at every position",
    text="12 command kinds x all single redirections (6 target descriptors x 8 operators x existing/missing/directory/non-directory parent/open/closed/close/here-document operands) x noclobber, half (quick) / all lists of length 2, 3*10^4 / 6*10^5 random lists of length 3; fault enumeration: every single redirection x kind x every descriptor limit 5..20 plus 3*10^4 / 8*10^5 random lists under random limits. Verdicts: table during == model, table after == before (exec: == modelled table), nothing at >= 10 left open, internal descriptors >= 10 with close-on-exec, file contents/creation as modelled, command not run after a failing redirection.",
